@@ -212,8 +212,7 @@ class Contract(object):
             cov = any(_check_sat(s.pc) for s in normal_paths[:50])
             results.append(_mk_result(self, 'cover-normal-exit', 'vacuity',
                                       Verdict.PROVED if cov else Verdict.REFUTED, {'backend': 'z3', 's': 0}))
-        for ob in ex.obligations:
-            results.append(discharge(self, ob, budget_ms))
+        results.extend(discharge_all(self, ex.obligations, budget_ms))
         meta['inlined'] = sorted(ex.inlined)
         meta['opaque'] = sorted(ex.opaque_calls)
         meta['assumptions'] = sorted(ex.assumptions)
@@ -373,7 +372,7 @@ def _conjuncts(g):
 SPLIT_AT = 8        # goals with at least this many top-level conjuncts are discharged conjunct by conjunct
 
 
-def _solve_split(ob, parts, ext, budget_ms, sequential=False):
+def _solve_split(ob, parts, ext, budget_ms, sequential=False, scale=None):
     """Prove a conjunction conjunct by conjunct (same assumptions).  Sound: the goal holds iff every conjunct
     holds; a model refuting one conjunct refutes the goal.  sequential=True (contract option
     'sequential_conjuncts'): conjuncts already proved are available as assumptions for the later ones
@@ -384,7 +383,7 @@ def _solve_split(ob, parts, ext, budget_ms, sequential=False):
     for part in parts:
         if z3.is_true(part):
             continue
-        v, model, info = smt.solve(list(ob.pc) + proved, part, timeout_ms=budget_ms, extra_axioms=ext)
+        v, model, info = smt.solve(list(ob.pc) + proved, part, timeout_ms=budget_ms, extra_axioms=ext, scale=scale)
         if sequential and v == Verdict.PROVED:
             proved.append(part)
         total += info.get('s', 0)
@@ -395,6 +394,20 @@ def _solve_split(ob, parts, ext, budget_ms, sequential=False):
             info['backend'] = '%s(split)' % info.get('backend')
             return v, model, info
     return Verdict.PROVED, None, {'backend': '+'.join(sorted(backends)) + '(split %d)' % len(parts), 's': total}
+
+
+def discharge_all(c, obligations, budget_ms):
+    """Discharge the obligations of one task.  Once one obligation of the task has failed to discharge the task
+    is lost anyway (it is reported as a whole), so the remaining obligations only get a quarter of the budget:
+    keeps a check on a broken tree from taking hours."""
+    out = []
+    failed = False
+    for ob in obligations:
+        r = discharge(c, ob, budget_ms // 8 if failed else budget_ms)
+        if r['verdict'] != Verdict.PROVED:
+            failed = True
+        out.append(r)
+    return out
 
 
 def discharge(c, ob, budget_ms):
@@ -414,12 +427,13 @@ def discharge(c, ob, budget_ms):
         ext = ext_axioms(list(ob.pc) + [goal])
         parts = _conjuncts(goal)
         seq = bool(getattr(c, 'opts', None) and c.opts.get('sequential_conjuncts'))
+        scale = (getattr(c, 'opts', None) or {}).get('rlimit_scale')      # opt-in: explicit resource-limit factor
         if len(parts) >= SPLIT_AT or (seq and len(parts) > 1):
-            verdict, model, info = _solve_split(ob, parts, ext, budget_ms, sequential=seq)
+            verdict, model, info = _solve_split(ob, parts, ext, budget_ms, sequential=seq, scale=scale)
         else:
-            verdict, model, info = smt.solve(ob.pc, goal, timeout_ms=budget_ms, extra_axioms=ext)
+            verdict, model, info = smt.solve(ob.pc, goal, timeout_ms=budget_ms, extra_axioms=ext, scale=scale)
             if verdict == Verdict.UNDECIDED and len(parts) > 1:
-                v2, m2, i2 = _solve_split(ob, parts, ext, budget_ms)
+                v2, m2, i2 = _solve_split(ob, parts, ext, budget_ms, scale=scale)
                 if v2 != Verdict.UNDECIDED:
                     verdict, model, info = v2, m2, i2
     except z3.Z3Exception as e:
@@ -612,8 +626,7 @@ class Scenario(object):
         t0 = time.time()
         self.body(api)
         results = []
-        for ob in ex.obligations:
-            results.append(discharge(self, ob, budget_ms))
+        results.extend(discharge_all(self, ex.obligations, budget_ms))
         if not ex.obligations:
             raise RuntimeError('scenario %s produced no obligations' % self.name)
         meta = {'qual': None, 'contract': self.name, 'exec_s': time.time() - t0, 'paths': api.paths,
